@@ -38,6 +38,13 @@ Inductive reason :=
      named lemma proves order independence for an injective key and key-determinacy otherwise; ties are the explicit
      tie-break input `tb` of the writer model (DESIGN section 3), the members are ints *)
 | KeyedTieBreak (lemma : string)
+  (* proved order free UP TO the equivalence the lemma states (same keys, same members per key, ...); the note says what
+     the equivalence forgets and which consumer could see it *)
+| OrderFreeUpTo (lemma : string) (note : string)
+  (* proved in the props file of the property that owns the model (named theorem), not re-stated here *)
+| OtherProperty (theorem : string)
+  (* not a set at this place: the flow-insensitive typing of the audit over-approximates (the note says why) *)
+| FalsePositive (note : string)
   (* not covered by a theorem (unmodelled heuristic).  The members are ints or tuples of ints: their hash is seed free
      and the iteration order is a function of the construction history, which is the same in every process.  Checked
      by the differential runs only. *)
@@ -110,7 +117,7 @@ Definition allow_list : list (site * reason) := [
   ((f_linear, "LinearFingerprint.linear_hash_smiles", "call sorted(v)"), OrderFree "sorted_str_perm");    (* set of str, sorted: repaired by fix 59bbd7c *)
   ((f_linear, "LinearFingerprint._chains", "call deque(arr)"), OrderFree "chains_insertion_order_free");       (* C17 *)
   ((f_linear, "LinearFingerprint._fragments", "for for frag in self._chains(min_radius, max_radius)"),
-     IntHistory "dict of lists filled in set order: keys and per-key multisets are order free (C17_fragments_*), the insertion order of the dict and of each list follows the int-tuple set");
+     OrderFreeUpTo "fragments_of_perm" "keys and the members of every list are order free, and so is linear_hash_set, which reads only len() (fragments_hash_set_perm); the insertion order of the dict and the order inside one list follow the int-tuple set: linear_hash_smiles reads chains[0] (fragments_first_chain_order_dependent)");
   ((f_mfp, "MorganFingerprint.morgan_fingerprint", "call list(bits)"), OrderFree "index_set_perm");
   ((f_mfp, "MorganFingerprint.morgan_bit_set", "for for tpl in self.morgan_hash_set(min_radius, max_radius)"), OrderFree "set_of_map_perm");
   ((f_mfp, "MorganFingerprint.morgan_hash_smiles", "call sorted(v)"), OrderFree "sorted_str_perm");       (* was list(v): seed dependent until fix 59bbd7c *)
@@ -122,14 +129,118 @@ Definition allow_list : list (site * reason) := [
   ((f_rxnstd, "StandardizeReaction.__remove_reagents_rules", "call tmp.extend(reagents_st2)"),
      StrSet "GENUINE seed dependence (known finding C19 seed-dependent:rxn-op:remove_reagents): a set of MoleculeContainer, hashed by hash(str(mol)), is appended to the reagents list in set order");
   ((f_rxnstd, "StandardizeReaction.__remove_reagents_mapping", "call tmp.extend(reagents)"),
-     StrSet "GENUINE seed dependence (known finding C19 seed-dependent:rxn-op:remove_reagents): same construction in the mapping based variant")
+     StrSet "GENUINE seed dependence (known finding C19 seed-dependent:rxn-op:remove_reagents): same construction in the mapping based variant");
+  (* ==== extension round: the other .py files anchored by any of the 20 properties ==== *)
+  (* ---- chython/algorithms/aromatics/kekule.py ---- *)
+  (("chython/algorithms/aromatics/kekule.py", "Kekule.kekule", "for for n in atoms"), OrderFree "pointwise_update_perm");
+  (("chython/algorithms/aromatics/kekule.py", "Kekule.enumerate_kekule", "for for n in atoms"), OrderFree "pointwise_update_perm");
+  (("chython/algorithms/aromatics/kekule.py", "Kekule.__prepare_rings", "for for n in double_bonded"), OrderFree "existsb_perm");
+  (("chython/algorithms/aromatics/kekule.py", "Kekule.__prepare_rings", "for for n in double_bonded #2"), OrderFree "existsb_perm");
+  (("chython/algorithms/aromatics/kekule.py", "Kekule.__kekule_full", "pop atoms.pop()"), IntHistory "start atom of the component search: order of the components, each is solved independently (Kekule search itself is the unmodelled heuristic of C05)");
+  (* ---- chython/algorithms/aromatics/thiele.py ---- *)
+  (("chython/algorithms/aromatics/thiele.py", "Thiele.thiele", "for for n in rings[current]"), IntHistory "DFS over ring neighbours in fix_tautomers: which donor/acceptor path is found first");
+  (("chython/algorithms/aromatics/thiele.py", "Thiele.thiele", "for for n in rings[start]"), IntHistory "DFS over ring neighbours in fix_tautomers: which donor/acceptor path is found first");
+  (("chython/algorithms/aromatics/thiele.py", "Thiele.thiele", "for for n in double_bonded"), OrderFree "remove_vertices_perm");
+  (("chython/algorithms/aromatics/thiele.py", "Thiele.thiele", "for for m in rings.pop(n)"), OrderFree "discard_all_perm");
+  (("chython/algorithms/aromatics/thiele.py", "Thiele.thiele", "pop rings.pop(n).pop()"), OrderFree "singleton_enum");
+  (("chython/algorithms/aromatics/thiele.py", "Thiele.thiele", "for for x in pm"), OrderFree "discard_all_perm");
+  (* ---- chython/algorithms/fingerprints/__init__.py ---- *)
+  (("chython/algorithms/fingerprints/__init__.py", "Fingerprints._atom_identifiers", "hash hash((atom.isotope or 0, atom.atomic_number, atom.charge, atom.is_radical))"), HashOfInts);
+  (("chython/algorithms/fingerprints/__init__.py", "FingerprintsCGR._atom_identifiers", "hash hash((atom.isotope or 0, atom.atomic_number, atom.charge, atom.p_charge, atom.is_radical, atom.p_is_radical))"), HashOfInts);
+  (* ---- chython/algorithms/standardize/molecule.py ---- *)
+  (("chython/algorithms/standardize/molecule.py", "Standardize.standardize", "call tuple(b)"), IntHistory "atom numbers of a log entry / error message in int-set order (logging=True output)");
+  (("chython/algorithms/standardize/molecule.py", "Standardize.standardize", "call tuple(fixed)"), IntHistory "atom numbers of a log entry / error message in int-set order (logging=True output)");
+  (("chython/algorithms/standardize/molecule.py", "Standardize.implicify_hydrogens", "for for n in to_remove"), OrderFree "remove_vertices_perm");
+  (("chython/algorithms/standardize/molecule.py", "Standardize.__standardize", "call tuple(match)"), IntHistory "atom numbers of a log entry / error message in int-set order (logging=True output)");
+  (("chython/algorithms/standardize/molecule.py", "Standardize.__standardize", "call tuple(match) #2"), IntHistory "atom numbers of a log entry / error message in int-set order (logging=True output)");
+  (("chython/algorithms/standardize/molecule.py", "Standardize.__standardize", "for for n in hs"), OrderFree "pointwise_update_perm");
+  (* ---- chython/algorithms/standardize/resonance.py ---- *)
+  (("chython/algorithms/standardize/resonance.py", "Resonance.fix_resonance", "for for n in hs"), OrderFree "pointwise_update_perm");
+  (("chython/algorithms/standardize/resonance.py", "Resonance.fix_resonance", "call list(hs)"), IntHistory "returned log list of changed atoms in int-set order (logging=True)");
+  (* ---- chython/algorithms/standardize/salts.py ---- *)
+  (("chython/algorithms/standardize/salts.py", "Salts.remove_acids", "call log.extend(c)"), IntHistory "deleted atoms log in component-set order (returned when logging=True); the deletion itself is order free");
+  (("chython/algorithms/standardize/salts.py", "Salts.split_metal_salts", "for for m in acceptors & bonds[n].keys()"), IntHistory "which metal-acceptor bonds are broken first when the metal would exceed charge +4 (break inside the loop)");
+  (* ---- chython/algorithms/stereo.py ---- *)
+  (("chython/algorithms/stereo.py", "MoleculeStereo.cumulenes", "pop adj[n].pop()"), OrderFree "singleton_enum");
+  (("chython/algorithms/stereo.py", "MoleculeStereo.cumulenes", "pop adj_m.pop()"), IntHistory "inner cumulene atom after discard(n): one member left when the atom has two double bonds (not proved here)");
+  (("chython/algorithms/stereo.py", "MoleculeStereo.cumulenes", "pop adj[m].pop()"), OrderFree "singleton_enum");
+  (("chython/algorithms/stereo.py", "MoleculeStereo.ring_tetrahedrons", "call tuple(environment[n].difference(atoms_rings))"), IntHistory "out-of-ring neighbours of a ring tetrahedron as a tuple in int-set order");
+  (("chython/algorithms/stereo.py", "MoleculeStereo.calculate_cis_trans_from_2d", "for for nm in self.chiral_cis_trans"), OrderFree "pointwise_update_perm");
+  (("chython/algorithms/stereo.py", "MoleculeStereo._chiral_morgan", "for for n in stereo_bonds"), OrderFree "set_of_map_perm");
+  (("chython/algorithms/stereo.py", "MoleculeStereo.__chiral_centers", "for for nm in self.ring_cumulenes_terminals"), IntHistory "set of int pairs; body edits several sets/dicts keyed by the pair (stereogenicity detection is search-only in C12)");
+  (("chython/algorithms/stereo.py", "MoleculeStereo.__chiral_centers", "for for m in graph.pop(n)"), OrderFree "discard_all_perm");
+  (("chython/algorithms/stereo.py", "MoleculeStereo.__chiral_centers", "for for n in chiral_c"), OrderFree "filter_set_perm");
+  (* ---- chython/algorithms/tautomers/acid_base.py ---- *)
+  (("chython/algorithms/tautomers/acid_base.py", "AcidBase.enumerate_charged_forms", "call list(donors)"), IntHistory "enumeration order of donors/acceptors: order of the generated forms, and WHICH form neutralize() takes first for charge-unbalanced molecules");
+  (("chython/algorithms/tautomers/acid_base.py", "AcidBase.enumerate_charged_forms", "call list(acceptors)"), IntHistory "enumeration order of donors/acceptors: order of the generated forms, and WHICH form neutralize() takes first for charge-unbalanced molecules");
+  (("chython/algorithms/tautomers/acid_base.py", "AcidBase.enumerate_charged_forms", "call combinations(acceptors, r)"), IntHistory "enumeration order of donors/acceptors: order of the generated forms, and WHICH form neutralize() takes first for charge-unbalanced molecules");
+  (("chython/algorithms/tautomers/acid_base.py", "AcidBase.enumerate_charged_forms", "call combinations(donors, r)"), IntHistory "enumeration order of donors/acceptors: order of the generated forms, and WHICH form neutralize() takes first for charge-unbalanced molecules");
+  (("chython/algorithms/tautomers/acid_base.py", "AcidBase._neutralize", "for for n in acceptors"), OrderFree "pointwise_update_perm");
+  (("chython/algorithms/tautomers/acid_base.py", "AcidBase._neutralize", "call combinations(donors, len(acceptors))"), IntHistory "enumeration order of donors/acceptors: order of the generated forms, and WHICH form neutralize() takes first for charge-unbalanced molecules");
+  (("chython/algorithms/tautomers/acid_base.py", "AcidBase._neutralize", "for for n in donors"), OrderFree "pointwise_update_perm");
+  (("chython/algorithms/tautomers/acid_base.py", "AcidBase._neutralize", "call combinations(acceptors, len(donors))"), IntHistory "enumeration order of donors/acceptors: order of the generated forms, and WHICH form neutralize() takes first for charge-unbalanced molecules");
+  (("chython/algorithms/tautomers/acid_base.py", "AcidBase._neutralize", "for for n in donors #2"), OrderFree "pointwise_update_perm");
+  (("chython/algorithms/tautomers/acid_base.py", "AcidBase._neutralize", "for for n in acceptors #2"), OrderFree "pointwise_update_perm");
+  (("chython/algorithms/tautomers/acid_base.py", "AcidBase._neutralize", "for for n in donors #3"), OrderFree "pointwise_update_perm");
+  (("chython/algorithms/tautomers/acid_base.py", "AcidBase._neutralize", "for for n in acceptors #3"), OrderFree "pointwise_update_perm");
+  (("chython/algorithms/tautomers/acid_base.py", "AcidBase._enumerate_zwitter_tautomers", "call product(donors, acceptors)"), IntHistory "enumeration order of donors/acceptors: order of the generated forms, and WHICH form neutralize() takes first for charge-unbalanced molecules");
+  (* ---- chython/algorithms/tautomers/heteroarenes.py ---- *)
+  (("chython/algorithms/tautomers/heteroarenes.py", "HeteroArenes._enumerate_hetero_arene_tautomers", "pop atoms.pop()"), IntHistory "component / donor-acceptor pair enumeration order: order of the generated tautomers");
+  (("chython/algorithms/tautomers/heteroarenes.py", "HeteroArenes._enumerate_hetero_arene_tautomers", "call product(component.keys() & donors, component.keys() & acceptors)"), IntHistory "component / donor-acceptor pair enumeration order: order of the generated tautomers");
+  (* ---- chython/algorithms/tautomers/keto_enol.py ---- *)
+  (("chython/algorithms/tautomers/keto_enol.py", "KetoEnol.__enumerate_bonds", "for for x in rings[x]"), OrderFree "forallb_perm");
+  (("chython/algorithms/tautomers/keto_enol.py", "KetoEnol.__enumerate_bonds", "for for x in rings[x] #2"), OrderFree "forallb_perm");
+  (* ---- chython/containers/bonds.py ---- *)
+  (("chython/containers/bonds.py", "DynamicBond.__int__", "hash hash(self)"), HashOfInts);
+  (("chython/containers/bonds.py", "DynamicBond.__hash__", "hash hash((self.order or 0, self.p_order or 0))"), HashOfInts);
+  (("chython/containers/bonds.py", "QueryBond.__init__", "for for x in order"), OrderFree "forallb_perm");
+  (("chython/containers/bonds.py", "QueryBond.__init__", "for for x in order #2"), OrderFree "existsb_perm");
+  (("chython/containers/bonds.py", "QueryBond.__init__", "call sorted(set(order))"), OrderFree "sorted_ints_perm");
+  (("chython/containers/bonds.py", "QueryBond.__int__", "hash hash(self.order)"), HashOfInts);
+  (("chython/containers/bonds.py", "QueryBond.__hash__", "hash hash((self.order, self.in_ring))"), HashOfInts);
+  (* ---- chython/containers/cgr.py ---- *)
+  (("chython/containers/cgr.py", "CGRContainer.center_atoms", "call tuple(center)"), IntHistory "atom/bond insertion order of the sub-CGR / the center_atoms tuple follow the int set");
+  (("chython/containers/cgr.py", "CGRContainer.substructure", "for for n in atoms"), IntHistory "atom/bond insertion order of the sub-CGR / the center_atoms tuple follow the int set");
+  (("chython/containers/cgr.py", "CGRContainer.substructure", "for for n in atoms #2"), IntHistory "atom/bond insertion order of the sub-CGR / the center_atoms tuple follow the int set");
+  (("chython/containers/cgr.py", "CGRContainer.augmented_substructure", "for for x in atoms"), OrderFree "set_of_map_perm");
+  (* ---- chython/containers/molecule.py ---- *)
+  (("chython/containers/molecule.py", "MoleculeContainer.compose", "for for n in self._atoms.keys() - common"), IntHistory "atom and bond insertion order of the composed CGR follows the int sets (compared after sorting in C15)");
+  (("chython/containers/molecule.py", "MoleculeContainer.compose", "for for n in other._atoms.keys() - common"), IntHistory "atom and bond insertion order of the composed CGR follows the int sets (compared after sorting in C15)");
+  (("chython/containers/molecule.py", "MoleculeContainer.compose", "for for n in common"), IntHistory "atom and bond insertion order of the composed CGR follows the int sets (compared after sorting in C15)");
+  (("chython/containers/molecule.py", "MoleculeContainer.compose", "for for n in common #2"), IntHistory "atom and bond insertion order of the composed CGR follows the int sets (compared after sorting in C15)");
+  (("chython/containers/molecule.py", "MoleculeContainer._augmented_substructure", "for for x in nodes[-1]"), OrderFree "set_of_map_perm");
+  (* ---- chython/containers/reaction.py ---- *)
+  (("chython/containers/reaction.py", "ReactionContainer.__hash__", "hash hash(str(self))"), HashOfStr "hash(reaction) is the hash of its canonical string: seed dependent by design of CPython, consumed only by dict/set membership (Reactor dedupes by str(r), not by hash order)");
+  (* ---- chython/files/_mapping.py ---- *)
+  (("chython/files/_mapping.py", "postprocess_parsed_reaction", "for for x in tmp"), FalsePositive "`tmp` is a list at this loop; the flow-insensitive typing sees the later `tmp = (set(...) | ...) & ...`");
+  (("chython/files/_mapping.py", "postprocess_parsed_reaction", "for for m in tmp"), FalsePositive "`tmp` is a list at this loop; the flow-insensitive typing sees the later `tmp = (set(...) | ...) & ...`");
+  (("chython/files/_mapping.py", "postprocess_parsed_reaction", "call sorted(set(range(1, next(length))) - set(maps['reactants']) - set(maps['products']) - set(maps['reagents']), reverse=True)"), OrderFree "sorted_ints_perm");
+  (* ---- chython/files/daylight/smiles.py ---- *)
+  (("chython/files/daylight/smiles.py", "smiles", "for for x in reactants"), OrderFree "pointwise_update_perm");
+  (("chython/files/daylight/smiles.py", "smiles", "for for x in products"), OrderFree "pointwise_update_perm");
+  (("chython/files/daylight/smiles.py", "smiles", "for for x in reagents"), OrderFree "pointwise_update_perm");
+  (* ---- chython/periodictable/base/dynamic.py ---- *)
+  (("chython/periodictable/base/dynamic.py", "DynamicElement.__hash__", "hash hash((self.isotope or 0, self.atomic_number, self.charge, self.p_charge, self.is_radical, self.p_is_radical))"), HashOfInts);
+  (* ---- chython/periodictable/base/query.py ---- *)
+  (("chython/periodictable/base/query.py", "QueryElement.from_atom", "call sorted(atom.ring_sizes)"), OrderFree "sorted_ints_perm");
+  (* ---- chython/reactor/base.py ---- *)
+  (("chython/reactor/base.py", "BaseReactor._get_deleted", "for for x in to_delete"), OtherProperty "C16_get_deleted_order_independent");
+  (* ---- chython/reactor/reactor.py ---- *)
+  (("chython/reactor/reactor.py", "Reactor.__call__", "for for x in s_nums.difference(chosen)"), IntHistory "order of the ignored molecules in the generated reaction (molecule list of the product side)");
+  (("chython/reactor/reactor.py", "Reactor.__call__", "for for x in s_nums.difference(chosen) #2"), IntHistory "order of the ignored molecules in the generated reaction (molecule list of the product side)");
+  (("chython/reactor/reactor.py", "Reactor.__call__", "call permutations(s_nums, len_patterns)"), IntHistory "order in which reactant assignments are tried: order of the generated reactions");
+  (("chython/reactor/reactor.py", "Reactor.__call__", "call permutations(s_nums, len_patterns) #2"), IntHistory "order in which reactant assignments are tried: order of the generated reactions");
+  (("chython/reactor/reactor.py", "Reactor._single_stage", "call zip(collision, count(max(max_ignored_number, max(new)) + 1))"), IntHistory "which colliding atom gets which fresh number");
+  (("chython/reactor/reactor.py", "fix_mapping_overlap", "call zip(intersection, count(max(max(checked_atoms), max(structure)) + 1))"), OrderFree "max_perm");
+  (("chython/reactor/reactor.py", "fix_mapping_overlap", "call max(checked_atoms)"), OrderFree "max_perm")
 ].
 
 (* lemmas an OrderFree / KeyedTieBreak reason may name: each is a theorem of Props.C19 (C19_<name>) *)
 Definition known_lemmas : list string :=
   ["group_sizes_perm"; "min_by_perm"; "bfs_level_perm"; "sort_by_perm"; "remove_vertices_perm"; "discard_all_perm"; "components_partition";
    "singleton_enum"; "filter_set_perm"; "lookup_table_perm"; "index_set_perm"; "set_of_map_perm";
-   "chains_insertion_order_free"; "ring_mask_perm"; "sorted_str_perm"].
+   "chains_insertion_order_free"; "ring_mask_perm"; "sorted_str_perm"; "fragments_of_perm";
+   "pointwise_update_perm"; "existsb_perm"; "forallb_perm"; "sorted_ints_perm"; "max_perm"].
 
 Close Scope string_scope.
 
@@ -138,7 +249,7 @@ Definition audit_ok (audit : list site) : bool :=
 Definition allow_tight (audit : list site) : bool :=
   forallb (fun a => existsb (site_eqb (fst a)) audit) allow_list.
 Definition reason_lemma (r : reason) : option string :=
-  match r with OrderFree l | KeyedTieBreak l => Some l | _ => None end.
+  match r with OrderFree l | KeyedTieBreak l | OrderFreeUpTo l _ => Some l | _ => None end.
 Definition reasons_known : bool :=
   forallb (fun a => match reason_lemma (snd a) with
                     | Some l => existsb (String.eqb l) known_lemmas
@@ -148,7 +259,7 @@ Fixpoint nodup_sites (l : list site) : bool :=
 
 (* sites whose reason is not a theorem (reported in the evidence) *)
 Definition untheorem_sites : list site :=
-  map fst (filter (fun a => match snd a with IntHistory _ | StrSet _ => true | _ => false end) allow_list).
+  map fst (filter (fun a => match snd a with IntHistory _ | StrSet _ | KeyedTieBreak _ => true | _ => false end) allow_list).
 
 (* ------------------------------------------------------------------------------------------------------------ *)
 (* (2) generic idioms *)
@@ -316,3 +427,55 @@ Definition filter_set (p : Z -> bool) (enum : list Z) : list Z :=
 Definition table_of {V : Type} (f : Z -> V) (enum : list Z) : list (Z * V) := loop (fun d c => d ++ [(c, f c)]) enum [].
 Fixpoint tlookup {V : Type} (d : list (Z * V)) (k : Z) : option V :=
   match d with [] => None | (k', v) :: r => if k =? k' then Some v else tlookup r k end.
+
+(* ------------------------------------------------------------------------------------------------------------ *)
+(* (4) extension round: dict-of-lists filled in set order (LinearFingerprint._fragments)
+       out = defaultdict(list)
+       for frag in self._chains(lo, hi):            # a set of int tuples
+           out[key(frag)].append(val(frag))         # key = the larger of (identifiers, reversed), val = frag or frag[::-1]
+       return dict(out)
+   and its consumer linear_hash_set:  {hash(( *tpl, cnt)) for tpl, count in items() for cnt in range(min(len(count), nbp))} *)
+Section Multi.
+  Context {K V : Type}.
+  Variable keqb : K -> K -> bool.
+  Fixpoint madd (d : list (K * list V)) (k : K) (v : V) : list (K * list V) :=
+    match d with
+    | [] => [(k, [v])]
+    | (k', vs) :: r => if keqb k k' then (k', vs ++ [v]) :: r else (k', vs) :: madd r k v
+    end.
+  (* d[k] of the finished dict; [] stands for an absent key *)
+  Fixpoint mget (d : list (K * list V)) (k : K) : list V :=
+    match d with [] => [] | (k', vs) :: r => if keqb k k' then vs else mget r k end.
+  Definition multi_table {X : Type} (key : X -> K) (val : X -> V) (enum : list X) : list (K * list V) :=
+    loop (fun d x => madd d (key x) (val x)) enum [].
+End Multi.
+
+Definition count_range (len nbp : Z) : list Z := map Z.of_nat (seq 0 (Z.to_nat (Z.min len nbp))).
+(* the list of hashes in items() order, then made a set *)
+Definition frag_hashes {K V : Type} (h : K -> Z -> Z) (nbp : Z) (d : list (K * list V)) : list Z :=
+  flat_map (fun kv => map (h (fst kv)) (count_range (Z.of_nat (List.length (snd kv))) nbp)) d.
+Definition canon_set (l : list Z) : list Z := fold_left set_add l [].
+Definition frag_hash_set {K V X : Type} (keqb : K -> K -> bool) (key : X -> K) (val : X -> V) (h : K -> Z -> Z) (nbp : Z)
+  (enum : list X) : list Z := canon_set (frag_hashes h nbp (multi_table keqb key val enum)).
+
+(* concrete instance: keys are int tuples *)
+Fixpoint zlist_eqb (a b : list Z) : bool :=
+  match a, b with [], [] => true | x :: r, y :: s => (x =? y) && zlist_eqb r s | _, _ => false end.
+Fixpoint zlist_ltb (a b : list Z) : bool :=          (* tuple comparison a < b *)
+  match a, b with
+  | _, [] => false
+  | [], _ :: _ => true
+  | x :: r, y :: s => (x <? y) || ((x =? y) && zlist_ltb r s)
+  end.
+(* var = (id[f0], order(f0,f1), id[f1], ...) ; if var > rev_var: (var, frag) else (rev_var, frag[::-1]) *)
+Definition frag_var (idf : Z -> Z) (ord : Z -> Z -> Z) (frag : list Z) : list Z :=
+  match frag with
+  | [] => []
+  | x :: r => idf x :: flat_map (fun p => [ord (fst p) (snd p); idf (snd p)]) (combine frag r)
+  end.
+Definition frag_key (idf : Z -> Z) (ord : Z -> Z -> Z) (frag : list Z) : list Z :=
+  let v := frag_var idf ord frag in let rv := rev v in if zlist_ltb rv v then v else rv.
+Definition frag_val (idf : Z -> Z) (ord : Z -> Z -> Z) (frag : list Z) : list Z :=
+  let v := frag_var idf ord frag in if zlist_ltb (rev v) v then frag else rev frag.
+Definition fragments_of (idf : Z -> Z) (ord : Z -> Z -> Z) (enum : list (list Z)) : list (list Z * list (list Z)) :=
+  multi_table zlist_eqb (frag_key idf ord) (frag_val idf ord) enum.
